@@ -98,6 +98,12 @@ def gen_w(rng, kind, n):
         w = [rng.random() if rng.random() < 0.6 else 0.0 for _ in range(n)]
         w[0] = w[0] or 0.5
         return w
+    if kind == "near_normalised":
+        # weights that sum to 1 up to a relative 1e-9 .. 1e-5 (normalised elsewhere in lower precision, or rescaled slightly)
+        base = [rng.gammavariate(rng.choice([0.3, 1, 5]), 1.0) + 1e-300 for _ in range(n)] if rng.random() < 0.7 else [1.0] * n
+        tot = math.fsum(base)
+        f = 1.0 + rng.choice([-1, 1]) * rng.choice([3e-9, 1e-7, 1e-6, 8e-6])
+        return [x / tot * f for x in base]
     if kind == "huge":
         return [rng.uniform(0.5, 1.0) * 1e290 for _ in range(n)]
     if kind == "tiny":
@@ -119,8 +125,8 @@ def exact_ess(w):
 
 def check_ess(run, tier, rng):
     from tempest.tools import compute_ess, effective_sample_size
-    kinds = ["dirichlet_tiny", "dirichlet", "geometric", "onehot_dust", "ties", "uniform", "zeros", "huge", "tiny"]
-    reps = 144 if tier == "quick" else 2000
+    kinds = ["dirichlet_tiny", "dirichlet", "geometric", "onehot_dust", "ties", "uniform", "zeros", "huge", "tiny", "near_normalised"]
+    reps = 150 if tier == "quick" else 2000
     small = []
     for t in range(reps):
         kind = kinds[t % len(kinds)]
